@@ -728,7 +728,10 @@ def run_values(prog: dict, cfg: dict, exp_in, model, rng: common.Rng) -> Optiona
         if b.dtype.kind == "c":
             b = np.stack([b.real, b.imag], axis=-1)
         a = np.asarray(a)
-        if a.shape != b.shape or not np.allclose(a.astype(np.float64), b.astype(np.float64), rtol=2e-2, atol=1e-3,
+        # an integer result downstream of a float computation (…→ Tanh → Cast) may differ by one unit where the two
+        # runtimes round the float differently just below an integer; values are C01's subject, not the interface's
+        atol = 1.0 if a.dtype.kind in "iu" else 1e-3
+        if a.shape != b.shape or not np.allclose(a.astype(np.float64), b.astype(np.float64), rtol=2e-2, atol=atol,
                                                   equal_nan=True):
             return {"kind": "output_value", "index": j, "ort": a.reshape(-1)[:5].tolist(),
                     "jax": b.reshape(-1)[:5].tolist(), "ort_shape": list(a.shape), "jax_shape": list(b.shape)}
